@@ -19,5 +19,6 @@ class InitialWaterContent:
 
         self.wc_type = wc_type
         self.method = method
-        self.depth_layer = depth_layer
-        self.value = value
+        # copies: the default lists are shared by every call that omits the argument
+        self.depth_layer = list(depth_layer)
+        self.value = list(value)
